@@ -15,7 +15,7 @@ META = {
             "(hence not depend on the form) and that of a hand-assembled reference circuit of the documented construction with k = ceil(pi/4 sqrt(N/M)) iterations, (ii) rank every solution above every non-solution, (iii) give the solutions total probability > 1/2, "
             "and (iv) decode_output of each solution string is the solution in the argument type. A form whose expressions do not denote S is "
             "skipped (C01's matter). Non-trivial = |S| >= 2 or a non-integer argument type; distinct = distinct (n, S, form).",
-    "bound": {"quick": "n=2,3 all sets (40), n=4 |S|<=2 (136); 12 forms (equalities, minterms, tables, tuples, lists, modular arithmetic; value search with int, falsy, bool and Qint-instance targets) x profiles", "thorough": "n=4 all 2516 sets, n=5 |S|<=2 (528 sets)"},
+    "bound": {"quick": "n=2,3 all sets (40), n=4 |S|<=2 (136); 13 forms (equalities, minterms, tables, tuples, lists, modular arithmetic; value search with int, falsy, bool and Qint-instance targets) x profiles", "thorough": "n=4 all 2516 sets, n=5 |S|<=2 (528 sets)"},
     "assumptions": ["svsim.sparse_run (cross-checked against the dense simulator) is the meaning of the circuit",
                     "the ideal oracle (X-conjugated MCX per solution) is the reference black box; n_matching=|S| and the default iteration count are used"],
     "explanation": "states = Grover instances built by the real constructor on a freshly compiled predicate; transitions = basis outcomes compared.",
@@ -45,7 +45,7 @@ def shards(tier):
     return out
 
 
-FORMS = ["eq", "dnf", "table", "tuple", "qlist", "value", "value_tuple", "value_zero", "pred_false", "arith", "value_qint1", "value_qint2"]
+FORMS = ["eq", "dnf", "table", "tuple", "qlist", "value", "value_tuple", "value_zero", "pred_false", "arith", "arith_rev", "value_qint1", "value_qint2"]
 
 
 def cases(shard):
@@ -92,6 +92,9 @@ def source(n, S, form):
     if form == "arith":
         # several expressions and recycled scratch qubits: modular subtraction compared with a constant
         return "def tfun(x: Qint[%d]) -> bool:\n    return %s\n" % (n, " or ".join("(x - %d) < 1" % s for s in S)), None, "int"
+    if form == "arith_rev":
+        # the constant on the left of the subtraction (narrower than the register for small s)
+        return "def tfun(x: Qint[%d]) -> bool:\n    return %s\n" % (n, " or ".join("(%d - x) == 0" % s for s in S)), None, "int"
     if form in ("value_qint1", "value_qint2"):
         # the searched value is given as a Qint instance whose bit string is not a palindrome
         v = 1 if form == "value_qint1" else 2
@@ -167,8 +170,12 @@ def run_case(case):
             for j, b in enumerate(bits):
                 got &= b if (element >> j) & 1 else (M ^ b)
     if got != want:
-        return {"status": "skipped", "rows": 0, "nontrivial": False, "outcome": "form-does-not-denote-S",
-                "counters": {"forms_not_denoting_S": 1}}
+        # the function the library derived from this source does not have S as its solutions: whatever the search circuit
+        # amplifies, it is not "exactly the solutions of the predicate" (none occurs on the unmodified tree)
+        return {"status": "violation", "rows": 0, "nontrivial": True, "outcome": "form-does-not-denote-S",
+                "detail": {"bad": [{"why": "the compiled predicate's solutions are not the solutions of the Python predicate",
+                                    "S": list(S), "compiled_solutions": None if got is None else sim.rows_of(got, N)[:16]}], "src": src},
+                "digest": H.h12("form-does-not-denote-S"), "counters": {"forms_not_denoting_S": 1}}
     bad = []
     try:
         elem_arg = element
